@@ -75,6 +75,9 @@ def apply_op(world, op, ctx=None):
     elif kind == 'clockjump':
         w.nodes[op['node']].skew += op['delta']
         w.note('clock.jump', op['node'], op['delta'])
+        if op.get('wake'):
+            # select() may return early with nothing readable: the timers are looked at now instead of at the next 1 s tick
+            w.wake(w.nodes[op['node']], ('tick',))
     elif kind == 'stall':
         n = w.nodes[op['node']]
         n.stalled_until = max(n.stalled_until, w.now + op['dur'])
